@@ -17,7 +17,7 @@ VARIANTS, PLAN = {}, {}
 ASSUMPTIONS = {
     "*": [
         "Kani 0.68 MIR->GOTO translation, CBMC 6.11 symbolic execution and bit-blasting, CaDiCaL (trusted base 1)",
-        "shadow copies of /repo's working tree: counted textual substitutions (item visibility, target predicates of code for other architectures, in variant belt-block:step the two loop-range expressions of the wide block, in variant cast5:route function boundaries around the unchanged round-function macro bodies and S-box look-ups) + injected harness modules; every one is listed under coverage.shadow_transformations",
+        "shadow copies of /repo's working tree: counted textual substitutions (item visibility, target predicates of code for other architectures, in variant belt-block:step the two loop-range expressions of the wide block, in variant cast5:route function boundaries around the unchanged round-function macro bodies and S-box look-ups, in variant rc2:route the three PI_TABLE look-ups of expand_key through a one-line function) + injected harness modules; every one is listed under coverage.shadow_transformations",
         "oracles in /verif/refmodels, validated natively against the repository's known-answer vectors by setup_cmd",
         "sequential execution (Kani does not model threads); MIR-level semantics (not the optimiser / code generation)",
         "W-queries: leaves named in the harness' stubs are uninterpreted functions shared by implementation and oracle (Ackermann encoding); the matching leaf lemma (L harness) ties the real leaf to the oracle leaf",
